@@ -45,8 +45,8 @@ THEOREMS = [
         "sph_roundtrip_inv chain_consistent_sph sph_branch_safe sph_branch_abs_needed rbcoords_recovers_all "
         "rbe3_normal_invertible rbe3_alg_reproduces rbe3_reproduces_rb rbe3_rigid_motion rbe3_rows_are_rbgeom_uset "
         "rbe3_fullrank_three_grids rbe3_reproduces_rb_three_grids "
-        "rbe3_um_indep rbe3_um_mixed rbe3_um_dep um_plan_indep_partial um_plan_dep_partial "
-        "um_plan_dep_counterexample um_plan_indep_counterexample "
+        "rbe3_um_indep rbe3_um_mixed rbe3_um_dep um_plan_branch um_plan_indep um_plan_dep "
+        "rbe3_um_any rbe3_um_any_grids "
         "chain_order_irrelevant chain_circular_refused chain_dup_unequal_refused chain_resolved"
     ).split()
 ]
@@ -77,13 +77,11 @@ ASSUMPTIONS = [
     "terminate then and the model answers `diverges`)",
 ]
 PARTIAL = (
-    "partial: um_plan_indep_partial / um_plan_dep_partial — formrbe3 picks its UM_List branch by the truth value of "
-    "index arrays, so an m-set whose only dependent DOF is the first one raises and an m-set whose only independent "
-    "DOF is the first one returns too few rows (findings rbe3-um-mset-holds-only-the-first-dependent-dof / "
-    "-independent-dof; counterexamples proved, the model follows the code); that umPlan's index lists are a "
-    "partition (IsPartition) and that a well-founded set of cards always resolves (build_coords succeeds) are tied by "
-    "the correspondence only; the rbe3 theorems assume an exact linear solver; all geometry theorems are over the "
-    "reals (round-off is measured by the correspondence, never proved)"
+    "partial: the list-level wrapper formRbe3 (sorting Ind_List / UM_List into uset order, conversion of the DOF "
+    "lists into index maps) around rbe3Grid / umPlan / umApplyMx is tied by the correspondence only; that a "
+    "well-founded set of cards always resolves (build_coords succeeds) is correspondence-only; the rbe3 theorems "
+    "assume an exact linear solver and, for a UM_List, that the block the taken branch inverts is invertible; all "
+    "geometry theorems are over the reals (round-off is measured by the correspondence, never proved)"
 )
 MANIFEST = {
     "level_text": "Proof (Lean 4, Mathlib, standard axioms) about polymorphic models of n2p's coordinate and "
@@ -96,7 +94,10 @@ MANIFEST = {
     "recovers p − ref in every branch; replace_basic_cs preserves distances and relative orientations; formrbe3's "
     "matrix times the rigid-body rows of the independent DOF (relative to any point) is the rigid-body rows of the "
     "dependent DOF for positive weights and full column rank (which three non-collinear grids with their "
-    "translations guarantee), for every exact solver, and the three UM_List re-partitions keep that; build_coords "
+    "translations guarantee), for every exact solver, and for every admissible UM_List (m-set duplicate-free, inside the dependent and "
+    "independent DOF, as large as the dependent set) the returned matrix — branch choice, re-partition and final "
+    "row / column reordering together — maps the rigid-body rows of the remaining DOF to those of the m-set DOF "
+    "(rbe3_um_any; the branch is determined by where the m-set DOF lie, as repaired by 959e8e9); build_coords "
     "does not depend on the order of the cards, refuses reference cycles / undefined references / unequal "
     "duplicates, and every entry of its dictionary is the A-B-C construction of its card relative to the entry of "
     "the card's reference. The same definitions run at Float and are compared (numbers to 1e-9, ids / levels / "
@@ -104,9 +105,8 @@ MANIFEST = {
     "rbgeom_uset, rbgeom, rbmove, rbcoords, formrbe3 (all UM_List kinds) and replace_basic_cs on random chains of "
     "all type mixes with scalar points and q-set grids, including azimuths exactly on the branch boundaries.",
     "level_note": "Trusted: Lean kernel; propext, Classical.choice, Quot.sound; the Python harness; libm/LAPACK "
-    "agreement with the Float model is measured. formrbe3's choice of UM_List branch is proved only away from the "
-    "two index-truth-test inputs (reported as findings); that build_coords succeeds on every well-founded card set "
-    "and that umPlan's lists partition the DOF are correspondence-only. Polar singularities are excluded by the "
+    "agreement with the Float model is measured. That build_coords succeeds on every well-founded card set, "
+    "and formRbe3's list-level wrapper (sorting into uset order) are correspondence-only. Polar singularities are excluded by the "
     "property.",
     "technique": "Lean 4 proof over ℝ / any field of polymorphic executable models + numeric and exact differential "
     "correspondence at Float",
@@ -768,8 +768,6 @@ def _add_um(rng, w, case, ref, kind, condmax=1e2):
                 return False
             dofs = rng.sample(ref["idof"], nd)
         elif kind == "dep":
-            if nd < 2:
-                return False  # a single dependent DOF as the m-set is the "first-dep" input
             dofs = list(ref["ddof"])
         elif kind == "mixed":
             if nd < 2 or ni < 2:
@@ -777,8 +775,8 @@ def _add_um(rng, w, case, ref, kind, condmax=1e2):
             r = rng.randint(1, nd - 1)
             drows = rng.sample(range(nd), r)
             icols = rng.sample(range(ni), nd - r) if ni >= nd - r else None
-            if icols is None or drows == [0] or icols == [0]:
-                continue  # the two index-truth-test inputs are generated on purpose below, not by accident
+            if icols is None:
+                continue
             dofs = [ref["ddof"][k] for k in drows] + [ref["idof"][k] for k in icols]
         elif kind == "first-ind":
             if nd < 2:
@@ -1536,8 +1534,8 @@ def _oracle_world(ctx, w, style=0, rbe3_case=None, rep=None, seed=0):
 
 
 def _um_family(ref, mdof, default):
-    """family of a UM_List failure from the input's own characteristics: formrbe3 tests index arrays for truth
-    (`dpv_m.any()`, `np.any(ipv_m)`), which is False for the single index 0"""
+    """family of a UM_List failure from the input's own characteristics: the m-set holds exactly the first
+    dependent / the first independent DOF (index vector [0]: the inputs repaired by 959e8e9), else by kind"""
     dm, dn, im, inn = _um_split(ref, mdof)
     if dm == [0]:
         return "rbe3-um-mset-holds-only-the-first-dependent-dof"
@@ -1645,11 +1643,15 @@ def _docstring_world():
 
 
 def _um_probes():
-    """the two inputs on which formrbe3's truth tests of index arrays go wrong (docstring geometry)"""
+    """docstring geometry, m-sets whose index vector into the dependent / independent DOF is [0] (regression
+    inputs of the repair 959e8e9) and the two UM_List examples of the docstring"""
     case = {"dep": 4, "ddof": 123456, "groups": [(123, None, [0, 1, 2, 3])]}
     a = dict(case, um={"kind": "first-ind", "list": [(0, 1), (4, 23456)]})
     b = dict(case, um={"kind": "first-dep", "list": [(4, 1), (0, 23), (1, 13), (2, 3)]})
-    return [a, b]
+    c = dict(case, ddof=3, um={"kind": "first-dep", "list": [(4, 3)]})
+    d = dict(case, um={"kind": "indep", "list": [(0, 12), (1, 3), (2, 23), (3, 3)]})
+    e = dict(case, um={"kind": "mixed", "list": [(0, 12), (1, 3), (2, 3), (4, 23)]})
+    return [a, b, c, d, e]
 
 
 def _oracle_chain(ctx, rng, n):
@@ -1762,13 +1764,12 @@ def search(ctx, hints):
         for case in _um_probes():
             _oracle_world_rbe3_only(ctx, _docstring_world(), case, 1)
             ctx.count("oracle:rbe3-um-probe")
-        kinds = (None, "indep", "dep", "mixed", "size")
+        kinds = (None,) + UM_KINDS
         nr = ctx.pick(70, 700)
         for i in range(nr):
             w = _gen_world(rng, N=rng.randint(0, 4), G=rng.randint(4, 7), plain=True)
             case = _rbe3_case(rng, w)
-            # the two index-truth-test inputs are probed above; a few random ones of each for variety
-            kind = ("first-ind", "first-dep")[i % 2] if i >= nr - 6 else kinds[i % len(kinds)]
+            kind = kinds[i % len(kinds)]
             ref = _rbe3_ref(w, case)
             # skip ill-conditioned independent sets (same rule as the correspondence)
             if not ref["cond"] <= (1e6 if kind is None else 1e4):
